@@ -1,9 +1,10 @@
 #!/bin/sh
 # usage: tools_seed_matrix.sh — applies each seeded change to /repo in turn, runs its property's check, reverts; prints which rules fire
 cd /verif
-for id in $(ls seeded); do
-  if ! git -C /repo apply --check /verif/seeded/$id/patch.diff 2>/dev/null; then echo "$id PATCH-DOES-NOT-APPLY"; continue; fi
-  git -C /repo apply /verif/seeded/$id/patch.diff
+DIR=${1:-seeded}
+for id in $(ls $DIR); do
+  if ! git -C /repo apply --check /verif/$DIR/$id/patch.diff 2>/dev/null; then echo "$id PATCH-DOES-NOT-APPLY"; continue; fi
+  git -C /repo apply /verif/$DIR/$id/patch.diff
   out=$(./check $id 2>&1); rc=$?
   git -C /repo checkout -- .
   rules=$(echo "$out" | grep -v "^VIOLATION\|^KNOWN\|^note\|^ANALYSIS" | grep -o "\[C[0-9a-z]*\.[a-z0-9-]*" | sort | uniq -c | tr '\n' ' ')
